@@ -31,7 +31,30 @@ theorem wrapped_literals_are_constant (v : Val) (h : Heap) :
   subst hi
   simp
 
-/-- the result tensor of `opStep` carries exactly the flag `resultConst` computes -/
+theorem attachResult_const (h : Heap) (x : Tens) (parent : Option Nat) :
+    ((attachResult h x parent).1.t (attachResult h x parent).2).const = x.const := by
+  unfold attachResult
+  simp only
+  cases parent with
+  | none => simp
+  | some p =>
+    by_cases hb : x.base.isSome = true
+    · simp only [hb, ite_true]
+      rw [t_modT_field _ _ _ _ (·.const) (by intro y; rfl)]
+      simp
+    · simp [hb]
+
+/-- the result tensor of `recordOp` carries exactly the flag it was given -/
+theorem recordOp_result_flag (h : Heap) (kind : Kind) (vars us : List Nat) (c : Bool)
+    (constant : Option Bool) (wm : Option (ND.Shape × List Bool)) (outArr : Arr) (parent : Option Nat) :
+    ((recordOp h kind vars us c constant wm outArr parent).1.t
+      (recordOp h kind vars us c constant wm outArr parent).2).const = c := by
+  unfold recordOp
+  simp only
+  split <;> exact attachResult_const ..
+
+/-- **opStep_result_flag.**  The tensor `Tensor._op` returns carries exactly the flag `resultConst`
+computes from the caller's `constant=` argument and the (wrapped) inputs. -/
 theorem opStep_result_flag (h : Heap) (kind : Kind) (inputs : List Operand) (constant : Option Bool)
     (wm : Option (ND.Shape × List Bool)) (h' : Heap) (o : Nat)
     (hok : opStep h kind inputs constant wm = .ok (h', o)) :
@@ -40,13 +63,13 @@ theorem opStep_result_flag (h : Heap) (kind : Kind) (inputs : List Operand) (con
   simp only at hok
   split at hok
   · cases hok
-  · rename_i hh outArr parent hfwd
-    simp only [Except.ok.injEq, Prod.mk.injEq] at hok
-    obtain ⟨rfl, rfl⟩ := hok
-    split <;> (try split) <;>
-      first
-      | simp
-      | (rw [t_modT_field _ _ _ _ (·.const) (by intro x; rfl)]; simp)
+  · simp only [Except.ok.injEq] at hok
+    have key : ∀ (hh : Heap) (us : List Nat) (c : Bool) (oa : Arr) (pa : Option Nat) (r : Heap × Nat),
+        recordOp hh kind (wrapOperands h inputs).2 us c constant wm oa pa = r → (r.1.t r.2).const = c := by
+      intro hh us c oa pa r hr
+      rw [← hr]
+      exact recordOp_result_flag ..
+    exact key _ _ _ _ _ _ hok
 
 /-- **constants_never_get_grad.**  Whatever the back-propagation loop does — to completion or up to
 an error — no constant tensor ever becomes a key of the gradient map (so none is ever stored a
